@@ -117,6 +117,10 @@ class SymObj:
         return f"<symobj {self.name}:{self.cls.node.name if self.cls else '?'}>"
 
 
+class KModel:
+    """Marker base: python-side model objects the evaluator may index / call methods on directly."""
+
+
 class SuperProxy:
     def __init__(self, obj, owner):
         self.obj = obj
@@ -943,6 +947,8 @@ class Interp:
                 base[as_int(idx)] = val
             elif isinstance(base, dict):
                 base[_hash(idx)] = val
+            elif isinstance(base, KModel):
+                base[idx] = val
             else:
                 raise OutsideFragment(f"subscript store into {type(base).__name__}")
         elif isinstance(target, ast.Attribute):
@@ -1386,6 +1392,8 @@ class Interp:
             if k not in base:
                 raise OutsideFragment(f"dict key {idx!r} missing")
             return base[k]
+        if isinstance(base, KModel):
+            return base[idx]
         if isinstance(base, Opaque):
             return Opaque(base.name + "[]")
         if isinstance(base, tuple) and base and base[0] in ("np", "builtin") and isinstance(base[1], str):
@@ -1466,6 +1474,11 @@ class Interp:
             if attr == "flat":
                 return base.ravel()
             return ("method", base, attr)
+        if isinstance(base, KModel):
+            try:
+                return getattr(base, attr)
+            except AttributeError:
+                raise OutsideFragment(f"attribute {attr} of model object {type(base).__name__}")
         if isinstance(base, SuperProxy):
             obj = base.obj
             cref = obj.cls if isinstance(obj, SymObj) else obj
